@@ -183,6 +183,148 @@ def translate(repo):
     return lines
 
 
+
+
+# ---------------------------------------------------------------------------
+# F5  network.py  Network.step: defaults of the six positivity options, and what each of the three phases
+#                 (init_vars of every element, step of every origin, step of every link) is handed
+# F6  network.py  Network.is_valid: every reported condition is followed by the raise under `raises`,
+#                 and the verdict is `not msgs`
+OPTIONS = ("positive_init_speed", "positive_init_density", "positive_init_queue",
+           "positive_next_speed", "positive_next_density", "positive_next_queue")
+
+
+def _network_method(repo, name):
+    tree = ast.parse(open(os.path.join(repo, "src/sym_metanet/network.py")).read())
+    fn = _fn(class_def(tree, "Network"), name)
+    if fn is None:
+        raise Unsupported(f"Network.{name} not found")
+    return fn
+
+
+def step_facts(repo):
+    fn = _network_method(repo, "step")
+    a = fn.args
+    names = [x.arg for x in a.args]
+    defaults = dict(zip(names[len(names) - len(a.defaults):], a.defaults))
+    for x, d in zip(a.kwonlyargs, a.kw_defaults):
+        defaults[x.arg] = d
+    opt_defaults = {}
+    for o in OPTIONS:
+        d = defaults.get(o)
+        if d is None or not (isinstance(d, ast.Constant) and isinstance(d.value, bool)):
+            raise Unsupported(f"Network.step: option {o} is not a parameter with a literal boolean default")
+        opt_defaults[o] = d.value
+    phases = []
+    for st in fn.body:
+        if isinstance(st, ast.Expr) and isinstance(st.value, ast.Constant):
+            continue                                   # docstring
+        if isinstance(st, ast.If):
+            # only `if init_conditions is None: init_conditions = {}` may precede the phases
+            t = st.test
+            ok = isinstance(t, ast.Compare) and isinstance(t.left, ast.Name) and t.left.id == "init_conditions" \
+                and len(t.ops) == 1 and isinstance(t.ops[0], ast.Is) and not st.orelse and len(st.body) == 1 \
+                and isinstance(st.body[0], ast.Assign) and isinstance(st.body[0].value, ast.Dict) and not st.body[0].value.keys
+            if not ok:
+                raise Unsupported("Network.step: unexpected conditional before/between the phases")
+            continue
+        if not isinstance(st, ast.For) or st.orelse or len(st.body) != 1 or not isinstance(st.body[0], ast.Expr) \
+                or not isinstance(st.body[0].value, ast.Call):
+            raise Unsupported(f"Network.step: unexpected statement {ast.unparse(st)[:60]!r}")
+        it = st.iter
+        if not (_is_self_attr(it, "elements") or _is_self_attr(it, "origins") or _is_self_attr(it, "links")):
+            raise Unsupported("Network.step: loop over something else than self.elements / self.origins / self.links")
+        over = it.attr
+        tgt = st.target
+        var = tgt.id if isinstance(tgt, ast.Name) else (tgt.elts[-1].id if isinstance(tgt, ast.Tuple) and isinstance(tgt.elts[-1], ast.Name) else None)
+        call = st.body[0].value
+        f = call.func
+        if not (isinstance(f, ast.Attribute) and isinstance(f.value, ast.Name) and f.value.id == var and not call.args):
+            raise Unsupported("Network.step: the loop body is not a keyword-only method call on the loop variable")
+        kws = {}
+        star = False
+        for kw in call.keywords:
+            if kw.arg is None:
+                if not (isinstance(kw.value, ast.Name) and kw.value.id == (a.kwarg.arg if a.kwarg else None)):
+                    raise Unsupported("Network.step: ** of something else than the extra parameters")
+                star = True
+            else:
+                kws[kw.arg] = kw.value
+        fwd = sorted(o for o in OPTIONS if o in kws and isinstance(kws[o], ast.Name) and kws[o].id == o)
+        bad = [o for o in OPTIONS if o in kws and o not in fwd]
+        if bad:
+            raise Unsupported(f"Network.step: option(s) {bad} passed on with another value")
+        engine_fwd = "engine" in kws and isinstance(kws["engine"], ast.Name) and kws["engine"].id == "engine"
+        by_element = None
+        if "init_conditions" in kws:
+            v = kws["init_conditions"]
+            by_element = isinstance(v, ast.Call) and isinstance(v.func, ast.Attribute) and v.func.attr == "get" \
+                and isinstance(v.func.value, ast.Name) and v.func.value.id == "init_conditions" and len(v.args) == 1 \
+                and isinstance(v.args[0], ast.Name) and v.args[0].id == var
+        phases.append(dict(over=over, method=f.attr, options=fwd, engine=engine_fwd, star=star, by_element=by_element))
+    return opt_defaults, phases
+
+
+def valid_facts(repo):
+    fn = _network_method(repo, "is_valid")
+    sites = []
+
+    def walk(stmts):
+        for i, st in enumerate(stmts):
+            if isinstance(st, ast.Expr) and isinstance(st.value, ast.Call) and isinstance(st.value.func, ast.Attribute) \
+                    and st.value.func.attr == "append" and isinstance(st.value.func.value, ast.Name) \
+                    and st.value.func.value.id == "msgs":
+                nxt = stmts[i + 1] if i + 1 < len(stmts) else None
+                follows = isinstance(nxt, ast.If) and isinstance(nxt.test, ast.Name) and nxt.test.id == "raises" \
+                    and not nxt.orelse and len(nxt.body) == 1 and isinstance(nxt.body[0], ast.Raise)
+                txt = ast.unparse(st.value.args[0])[:48].replace('"', "'").replace("\n", " ") if st.value.args else "?"
+                sites.append((txt, follows))
+            for fld in ("body", "orelse", "finalbody"):
+                sub = getattr(st, fld, None)
+                if isinstance(sub, list) and not isinstance(st, (ast.FunctionDef, ast.ClassDef)):
+                    walk(sub)
+    walk(fn.body)
+    raises_elsewhere = 0
+    for n in ast.walk(fn):
+        if isinstance(n, ast.Raise):
+            raises_elsewhere += 1
+    rets = [n for n in ast.walk(fn) if isinstance(n, ast.Return) and not isinstance(n.value, type(None))]
+    rets = [r for r in rets if r.value is not None and not (isinstance(r.value, ast.Subscript))]
+    verdict = False
+    outer = [n for n in fn.body if isinstance(n, ast.Return)]
+    if len(outer) == 1 and isinstance(outer[0].value, ast.Tuple) and len(outer[0].value.elts) == 2:
+        a0, a1 = outer[0].value.elts
+        verdict = isinstance(a0, ast.UnaryOp) and isinstance(a0.op, ast.Not) and isinstance(a0.operand, ast.Name) \
+            and a0.operand.id == "msgs" and isinstance(a1, ast.Name) and a1.id == "msgs"
+    return sites, verdict, raises_elsewhere == sum(1 for _, f in sites if f)
+
+
+_translate_f1_f3 = translate
+
+
+def translate(repo):            # noqa: F811  (extends the F1-F3 output)
+    lines = _translate_f1_f3(repo)
+    b = lambda x: "true" if x else "false"
+    od, phases = step_facts(repo)
+    lines += ["(* Network.step: defaults of the six positivity options *)",
+              "Definition gen_option_defaults : list (string * bool) :=",
+              "  [" + "; ".join(f'("{o}", {b(od[o])})' for o in OPTIONS) + "].",
+              "(* Network.step: (loop over, method called, options handed on under their own name, engine handed on,",
+              "   extra parameters handed on, initial conditions looked up by the element object) per phase, in order *)",
+              "Definition gen_step_phases : list (string * string * list string * bool * bool * option bool) :=", "  ["]
+    lines.append(";\n".join(
+        f'   ("{p["over"]}", "{p["method"]}", [' + "; ".join(f'"{o}"' for o in p["options"]) + f'], {b(p["engine"])}, {b(p["star"])}, '
+        + ("None" if p["by_element"] is None else f"Some {b(p['by_element'])}") + ")" for p in phases))
+    lines += ["  ].", ""]
+    sites, verdict, only = valid_facts(repo)
+    lines += ["(* Network.is_valid: every msgs.append(...) and whether `if raises: raise ...` is the next statement *)",
+              "Definition gen_valid_sites : list (string * bool) :=", "  ["]
+    lines.append(";\n".join(f'   ("{t}", {b(f)})' for t, f in sites))
+    lines += ["  ].", f"Definition gen_valid_verdict_is_not_msgs : bool := {b(verdict)}.",
+              f"Definition gen_valid_raises_only_there : bool := {b(only)}.", ""]
+    return lines
+
+
 if __name__ == "__main__":
     import sys
     print("\n".join(translate(sys.argv[1] if len(sys.argv) > 1 else "/repo")))
